@@ -65,7 +65,11 @@ func (its *jsonObject) putCommon(key string, value interface{}, ts *model.Timest
 			jsonElement: removed from NodeMap, not added to Cemetery.
 			jsonObject, jsonArray: remain in NodeMap, added to Cemetery.
 		*/
+		alreadyDeleted := removedJSON.isTomb()
 		its.funeral(removedJSON, putJSON.getCreateTime())
+		if alreadyDeleted {
+			return nil
+		}
 		return removedJSON
 	}
 	return nil
